@@ -28,10 +28,19 @@ type c15Aux struct {
 	InQueue   []uint64     // in the delivery queue, FIFO
 	Delivered map[uint64]bool
 	Seq       int
+	// Thr is the reference's own record of every token's threshold: the genesis value, then the last
+	// request of each block for that token (nil until the first block: filled from the genesis state)
+	Thr map[string]math.Int
 }
 
 func (a *c15Aux) clone() *c15Aux {
 	n := &c15Aux{Seq: a.Seq, Delivered: map[uint64]bool{}}
+	if a.Thr != nil {
+		n.Thr = map[string]math.Int{}
+		for k, v := range a.Thr {
+			n.Thr[k] = v
+		}
+	}
 	n.Pending = append(n.Pending, a.Pending...)
 	n.InQueue = append(n.InQueue, a.InQueue...)
 	for k, v := range a.Delivered {
@@ -108,6 +117,9 @@ func c15Menu(c lockCfg, thorough bool) func(w *engb.World, st *engb.LState, dept
 		engb.LBlock{Dt: 1, Ops: []engb.LOp{{Kind: "unlock", Val: 0, Token: 0, Amt: "1"}, {Kind: "unlock", Val: 1, Token: 0, Amt: "1"}}},
 		engb.LBlock{Dt: 1, Evidence: []engb.EvSpec{{Val: 1, AgeBlocks: 1, AgeSecs: 1}}, Ops: []engb.LOp{{Kind: "unlock", Val: 1, Token: 0, Amt: "3"}}},
 		engb.LBlock{Dt: 1, Absent: []int{1}},
+		// the same token's threshold requested twice in one block: the last request is the one in force
+		engb.LBlock{Dt: 1, Ops: []engb.LOp{{Kind: "threshold", Token: 0, Amt: amt(1)}, {Kind: "threshold", Token: 0, Amt: amt(3)}}},
+		engb.LBlock{Dt: 1, Ops: []engb.LOp{{Kind: "threshold", Token: 0, Amt: amt(3)}, {Kind: "threshold", Token: 0, Amt: amt(1)}}},
 	)
 	if thorough {
 		base = append(base,
@@ -149,6 +161,22 @@ func c15Monitor(r *mc.Run, c lockCfg) engb.Monitor {
 		next.Aux = aux
 		mid, post := res.AfterBegin, res.Post
 		now := post.Time
+		if aux.Thr == nil {
+			aux.Thr = map[string]math.Int{}
+			for d, tk := range res.Pre.Tokens {
+				aux.Thr[d] = tk.Threshold
+			}
+		}
+		if res.TxErr == nil {
+			for _, u := range res.Reqs.UpdateThresholds {
+				aux.Thr[lockingtypes.TokenDenom(u.Token)] = math.NewIntFromBigInt(u.Threshold) // the last request for a token is the one in force
+			}
+		}
+		for d, tk := range post.Tokens {
+			if want, ok := aux.Thr[d]; ok && !tk.Threshold.Equal(want) {
+				viol("threshold-in-force-is-not-the-last-one-requested", fmt.Sprintf("token %s: stored threshold %s, last requested %s", d, tk.Threshold, want))
+			}
+		}
 
 		// 1. which unlocks reached the delivery queue in this block (wherever in the block the
 		// maturity sweep runs): delivered ++ remaining queue must extend the previous queue
@@ -274,7 +302,7 @@ func c15Monitor(r *mc.Run, c lockCfg) engb.Monitor {
 				remain := h.Sub(am)
 				hold[a+"|"+d] = remain
 				st := mid.Vals[a].Status
-				exiting := st == lockingtypes.Inactive || st == lockingtypes.Tombstoned || gone[a] || remain.LT(post.Tokens[d].Threshold)
+				exiting := st == lockingtypes.Inactive || st == lockingtypes.Tombstoned || gone[a] || remain.LT(aux.Thr[d])
 				dur := params.UnlockDuration
 				if exiting {
 					// "or the longer exit period": never less than the unlock period
